@@ -3,7 +3,7 @@
 From Coq Require Import ZArith NArith List.
 From SL Require Import PyInt KeyPattern proofs.PyIntProofs proofs.C14Proofs.
 Import ListNotations.
-Open Scope Z_scope.
+Local Open Scope Z_scope.
 
 (* the displayed label is prefix ++ number ++ suffix, for every pattern of the family *)
 Theorem C14_label_shows_number kp i :
